@@ -122,7 +122,9 @@ func runC04(c *core.Ctx) {
 		for _, k := range sub {
 			c.Cover("forgotten-family", famShort(k))
 		}
-		p := sim.Proc{Forget: sub}
+		// every second subset: the process does not link the payload message types of the forgotten types either
+		p := sim.Proc{Forget: sub, NoProto: si%2 == 1}
+		c.Cover("payload-message-types-linked", fmt.Sprint(!p.NoProto))
 		var out, out2 []byte
 		var su obs.Shape
 		var typeProblem string
@@ -201,7 +203,7 @@ func runC04(c *core.Ctx) {
 		if si == 0 || c.R.Intn(4) == 0 {
 			sub2 := subset(c.R, keys)
 			var o2 []byte
-			if pn := core.Try(func() { o2 = sim.Proc{Forget: sub2}.Receive(out, nil) }); pn != nil {
+			if pn := core.Try(func() { o2 = sim.Proc{Forget: sub2, NoProto: si%2 == 0}.Receive(out, nil) }); pn != nil {
 				c.Violate("panic/unknowing2", "second unknowing process panicked", fmt.Sprintf("%s\nforgot %v then %v\n%v", t, sub, sub2, pn))
 			} else {
 				c.Count("two-intermediary-histories", 1)
